@@ -58,8 +58,14 @@ def oracle(ck, extended):
         h0 = gen.int_filter(rng, L); h1 = gen.int_filter(rng, L)
         H = (2 ** J) * rng.randint(1, 4); W = (2 ** J) * rng.randint(1, 4)
         nb, c = rng.choice([(1, 1), (2, 1), (1, 3), (2, 2)])
-        filt = (h0, h1) if rng.random() < 0.5 else (h0, h1, gen.int_filter(rng, L), gen.int_filter(rng, L))
+        Lr = L if rng.random() < 0.4 else 2 * rng.randint(1, 5 if q else 8)      # per-axis wavelets of DIFFERENT lengths too
+        filt = (h0, h1) if rng.random() < 0.4 else (h0, h1, gen.int_filter(rng, Lr), gen.int_filter(rng, Lr))
         rt.guard(ck, oracle_swt, ck, m, J, filt, gen.int_tensor(rng, (nb, c, H, W)))
+    # covering cases: per-axis wavelets of different lengths by name (column wavelet, row wavelet), several levels
+    for (nc, nr) in [('db2', 'db4'), ('db3', 'haar'), ('sym5', 'bior2.2')]:
+        wc_, wr_ = pywt.Wavelet(nc), pywt.Wavelet(nr)
+        rt.guard(ck, oracle_swt, ck, rng.choice([2, 6]), 2, (np.array(wc_.dec_lo), np.array(wc_.dec_hi), np.array(wr_.dec_lo), np.array(wr_.dec_hi)),
+                 gen.float_tensor(ck.nprng, (1, 2, 16, 24)), tol=1e-9)
     for name in named_wavelets(rng, 25 if q else 106):
         w = pywt.Wavelet(name); J = rng.randint(1, 2 if q else 3)
         H = (2 ** J) * rng.randint(1, 6); W = (2 ** J) * rng.randint(1, 6)
